@@ -468,6 +468,18 @@ def check_C02(ctx):
         ops.append("game\t" + fen + "\t" + "\t".join(mvs))
         sops.append("sgame\t" + fen + "\t" + "\t".join(mvs))
         meta.append((fen, mvs, steps))
+    # exhaustive short game trees from the targeted families (every 2-ply / 3-ply sequence)
+    tsub = targeted if not ctx.quick else rng.sample(targeted, min(len(targeted), 26))
+    seqs = gens.all_sequences(tsub, 2)
+    sparse = [f for f in targeted if sum(1 for c in f.split()[0] if c.isalpha()) <= 8]
+    seqs += gens.all_sequences(sparse if not ctx.quick else rng.sample(sparse, min(len(sparse), 6)), 3)
+    if ctx.quick and len(seqs) > 25000:
+        seqs = rng.sample(seqs, 25000)
+    ctx.bump("exhaustive_short_sequences", len(seqs))
+    for fen, mvs in seqs:
+        ops.append("game\t" + fen + "\t" + "\t".join(mvs))
+        sops.append("sgame\t" + fen + "\t" + "\t".join(mvs))
+        meta.append((fen, mvs, [(m, None) for m in mvs]))
 
     def proj_go(l):
         if not l or not l.startswith("ok"):
@@ -531,7 +543,7 @@ def check_C02(ctx):
         ctx.violation(f"make-model:{names[i][:200]}", {"kind": "unproved", "correspondence": "co_make", "input": names[i], "what": "Go implementation and Lean model differ on MakeMove snapshots; no failing input against the specification found",
                                                        "engine": (go[i] or "")[:600], "model": (model[i] or "")[:600]}, found=False)
     # every reached position also goes through move generation (legal generation stays exact at every later step)
-    fens = [f for _, _, steps in meta for _, f in steps]
+    fens = [f for _, _, steps in meta for _, f in steps if f]
     sub = rng.sample(fens, min(len(fens), ctx.size(1500, 60000)))
     gops = [f"gen\t{f}" for f in sub]
     sg = [f"sgen\t{f}" for f in sub]
@@ -788,7 +800,7 @@ def check_C10(ctx):
     items = []
     for f, cnt in pool:
         r = ctx.rng.random()
-        env = {"VERIF_SLEEP": "rootmove:1:0:215"}   # opens the 200 ms print gate so every PV improvement is printed
+        env = {"VERIF_SLEEP": "rootmove:1:0:215", "VERIF_TRACE": "1"}   # opens the 200 ms print gate so every PV improvement is printed
         if r < 0.5:
             items.append((f, "go depth 3", None, env))
         elif r < 0.7:
@@ -812,6 +824,8 @@ def check_C10(ctx):
         last_pv = None
         iter_map = {}
         for l in got:
+            if l.startswith("info string vsync iter"):
+                iter_map = {}
             if l.startswith("info string"):
                 continue
             if l.startswith("info"):
@@ -922,7 +936,7 @@ def check_C11(ctx):
     items = []
     k = 0
     for f, cnt in pool:
-        pts = [(2, 0), (2, min(1, cnt - 1)), (3, 0), (3, min(2, cnt - 1)), (2, cnt - 1), (4, 0)]
+        pts = [(2, 0), (2, min(1, cnt - 1)), (3, 0), (3, min(2, cnt - 1)), (2, cnt - 1), (4, 0), (2, max(0, cnt - 2)), (3, max(0, cnt - 2)), (3, cnt - 1), (4, max(0, cnt - 2))]
         for mode in ("stop", "expire"):
             chosen = ctx.rng.sample(pts, 2 if ctx.quick else 4)
             for (d, i) in chosen:
@@ -951,6 +965,14 @@ def check_C11(ctx):
         reported = fin[-1]["depth"] if fin else None
         parsed.append((fen, mode, point, completed, reported, bm, got))
         need[(fen, completed)] = None
+        # an interruption placed after root move k < n-1 of iteration d leaves that iteration incomplete
+        if mode in ("stop", "expire") and str(point).startswith("rootmove"):
+            _, d_, k_ = point.split(":")
+            nroot = dict(pool).get(fen, 0)
+            reached = any(l.startswith(("info string vhold", "info string vexpire")) for l in got)
+            if reached and int(k_) < nroot - 1 and completed >= int(d_):
+                ctx.violation(f"int-partial:{fen}:{mode}:{point}", {"kind": "schedule", "lines": lines, "what": f"iteration {d_} was interrupted after root move {k_} of {nroot} but is reported as completed (info depth {completed}); the move comes from a partially searched iteration",
+                                                                   "output": [l for l in got if not l.startswith('info string vsync')][-4:]})
     keys = list(need)
     fres = parallel_map(lambda k_: fresh_depth_result(k_[0], k_[1]), keys, workers=min(8, infra.NCPU))
     for k_, r in zip(keys, fres):
@@ -2105,9 +2127,19 @@ def snapshot_text(s):
     return [l for l in got if not l.startswith("info")], st
 
 
+TERMINAL_FENS = [
+    "7k/5Q2/6K1/8/8/8/8/8 b - - 0 1", "7k/6Q1/6K1/8/8/8/8/8 b - - 0 1", "k7/8/1K6/8/8/8/8/7R w - - 0 1", "5k2/5P2/5K2/8/8/8/8/8 b - - 0 1",
+    "8/8/8/8/8/5k2/5p2/5K2 w - - 0 1", "K7/P1k5/8/8/8/8/8/8 w - - 0 1", "7K/5k1P/8/8/8/8/8/8 w - - 0 1", "rnb1kbnr/pppp1ppp/8/4p3/6Pq/5P2/PPPPP2P/RNBQKBNR w KQkq - 1 3",
+    "R5k1/5ppp/8/8/8/8/8/6K1 b - - 0 1", "8/8/8/8/8/1k6/1q6/K7 w - - 0 1".replace("1q6/K7", "2q5/K7"),
+]
+
+
 def check_C16(ctx):
     n = ctx.size(30, 1000)
     pool = small_pool(ctx, n, max_men=32)
+    # positions without legal moves are legal positions too (stalemate / checkmate game positions)
+    term = gens.legal_filter(TERMINAL_FENS + [gens.mirror_fen(f) for f in TERMINAL_FENS])
+    pool = pool + [(f, 0) for f in term]
 
     def one(item):
         f, d, queries = item
@@ -2168,6 +2200,8 @@ def check_C16(ctx):
                 qs.append(("line", "isready"))
             else:
                 qs.append(("line", f"setoption name currmoveLogInterval value {ctx.rng.choice([10, 5000, 10000000])}"))
+        if cnt == 0:
+            qs.insert(ctx.rng.randint(0, len(qs)), ("line", "eval"))
         d = 3 if sum(1 for c in f.split()[0] if c.isalpha()) <= 16 else 2
         items.append((f, d, qs))
     res = parallel_map(one, items, workers=8)
